@@ -227,8 +227,17 @@ theorem transferLockCore_wakes {s s' : State} {q c n nt : Nat} {o : SyncOwner} {
         | some r =>
           cases r with
           | none =>
-            simp only [he, Option.some.injEq, Prod.mk.injEq] at h
-            rw [← h.1]; exact WakesOne.of_same (fun _ => rfl)
+            simp only [he] at h
+            by_cases hcn : c = nt'
+            · simp only [hcn, if_true, Option.some.injEq, Prod.mk.injEq] at h
+              rw [← h.1]; exact WakesOne.of_same (fun _ => rfl)
+            · simp only [hcn, if_false] at h
+              cases ha : afterTransfer s q nt' with
+              | none => simp [ha] at h
+              | some s7 =>
+                simp only [ha, Option.some.injEq, Prod.mk.injEq] at h
+                obtain ⟨rfl, _, rfl⟩ := h
+                exact afterTransfer_wakes ha
           | some p =>
             obtain ⟨s4, ch⟩ := p
             simp only [he] at h
